@@ -185,6 +185,9 @@ def check_property(x, p, tag, allow=True):
 
 
 def replay(rep):
+    if rep['replay'].get('protocol') == 'values_only':
+        from props import _purity
+        return _purity.replay_protocol(rep['replay'])
     r = rep['replay']
     if r.get('function') == 'aryule':
         x = vlib.unhexv(r['x'])
@@ -381,3 +384,7 @@ def run(ctx):
             except Exception as e:
                 ctx.violation('no_exception/pyule/' + tag, 'pyule raised %r' % (e,), {'function': 'pyule', 'x': vlib.hexv(x), 'order': min(p, 12), 'tag': tag})
             ctx.count('search/pyule'); ctx.case(('search-pyule', x.tobytes(), p), nontrivial=(p >= 2))
+
+    # ---------------- results depend on the VALUES given only: call protocol (repeat, aliasing, buffer reuse, memory layout, integer / single-precision dtypes)
+    from props import _purity
+    _purity.run_protocol(ctx, ['aryule', 'lpc'])
